@@ -657,8 +657,7 @@ class UnionUnmarshaller(AbstractUnmarshaller[UnionT], tp.Generic[UnionT]):
 
         1. We iterate through each union member from top to bottom and call the
            resolved unmarshaller, returning the result.
-        2. If any of `(ValueError, TypeError, SyntaxError)`, try again with the
-           next unmarshaller.
+        2. If the unmarshaller raises any error, try again with the next unmarshaller.
         3. If all unmarshallers fail, then we have an invalid input, raise an error.
 
     Tip: TL;DR
@@ -698,9 +697,9 @@ class UnionUnmarshaller(AbstractUnmarshaller[UnionT], tp.Generic[UnionT]):
             ValueError: If `val` cannot be unmarshalled into any member type.
         """
         for routine in self.ordered_routines:
-            with contextlib.suppress(
-                ValueError, TypeError, SyntaxError, AttributeError
-            ):
+            # A member rejects the input with whatever error its constructor raises
+            # (OverflowError, decimal.InvalidOperation, OSError, re.error, ...).
+            with contextlib.suppress(Exception):
                 unmarshalled = routine(val)
                 return unmarshalled
 
